@@ -6,6 +6,7 @@ import (
 	"encoding/hex"
 	"fmt"
 	"net/http"
+	"slices"
 	"sync"
 	"time"
 
@@ -334,6 +335,19 @@ func (a *Auth) addUser(u *webUser, password string) (err error) {
 	log.Debug("auth: added user with login %q", u.Name)
 
 	return nil
+}
+
+// removeUser removes the user that has the same name and password hash as u, if
+// there is one.
+func (a *Auth) removeUser(u *webUser) {
+	a.lock.Lock()
+	defer a.lock.Unlock()
+
+	a.users = slices.DeleteFunc(a.users, func(user webUser) (ok bool) {
+		return user.Name == u.Name && user.PasswordHash == u.PasswordHash
+	})
+
+	log.Debug("auth: removed user with login %q", u.Name)
 }
 
 // findUser returns a user if there is one.
